@@ -102,7 +102,8 @@ def check_conversions(model: Model, report: Report, rule: str) -> None:
     fn = ci.find_method("evaluate")
     if fn is None:
         raise AnalysisError("anchor vanished: FunctionExtension.evaluate")
-    for decl, cell, pos in [(d, c, p) for d in ("VALUE", "LOGICAL", "NODES") for c in ARG_CELLS for p in ("only", "first", "second")]:
+    POSITIONS = ["only"] + [f"{w}-with-{o}" for w in ("first", "second") for o in ("VALUE", "LOGICAL", "NODES")]
+    for decl, cell, pos in [(d, c, p) for d in ("VALUE", "LOGICAL", "NODES") for c in ARG_CELLS for p in POSITIONS]:
         if True:
             if not well_typed(decl, cell):
                 continue
@@ -111,7 +112,8 @@ def check_conversions(model: Model, report: Report, rule: str) -> None:
                 env = it.new_inst(model.cls("environment.JSONPathEnvironment"), "env")
                 calls: List[Any] = []
                 marker = it.new_opaque("function-result")
-                sig = {"only": [decl], "first": [decl, "VALUE"], "second": ["VALUE", decl]}[pos]
+                where, _, other_type = pos.partition("-with-")
+                sig = [decl] if where == "only" else ([decl, other_type] if where == "first" else [other_type, decl])
                 f = probe_function(it, model, sig, "VALUE", calls, marker)
                 reg = PyDict(oid=it.ctx.new_id())
                 from ..absint import hkey
@@ -135,16 +137,21 @@ def check_conversions(model: Model, report: Report, rule: str) -> None:
                 inst = it.new_inst(ci, "call")
                 inst.attrs["token"] = it.new_opaque("token")
                 inst.attrs["name"] = Const("probe")
-                other = it.new_sym("other-arg", ["int"])
+                if other_type == "NODES":
+                    other = c02.abstract_nl(it, model, "other-arg", 2, None)
+                elif other_type == "LOGICAL":
+                    other = Const(True)
+                else:
+                    other = it.new_sym("other-arg", ["int"])
                 mine = expr_stub(it, model, argv, "argexpr")
                 oth = expr_stub(it, model, other, "otherexpr")
-                inst.attrs["args"] = it.new_list({"only": [mine], "first": [mine, oth], "second": [oth, mine]}[pos])
+                inst.attrs["args"] = it.new_list([mine] if where == "only" else ([mine, oth] if where == "first" else [oth, mine]))
                 c = it.new_inst(model.cls(FE + "FilterContext"), "context")
                 c.attrs.update({"env": env, "current": it.new_sym("current"), "root": it.new_sym("root")})
                 r = it.call_function(fn, [inst, c], {}, None, self_av=inst)
                 return r, calls, argv, inner, marker, it
 
-            key = f"convert:{decl}<-{cell}" + ("" if pos == "only" else f":{pos}-of-2")
+            key = f"convert:{decl}<-{cell}" + ("" if pos == "only" else f":{pos}")
             try:
                 runs = paths(model, body)
             except Unsupported as err:
@@ -158,11 +165,12 @@ def check_conversions(model: Model, report: Report, rule: str) -> None:
                 r, calls, argv, inner, marker, it = run.value
                 if r is not marker:
                     probs["result"] = f"the call evaluates to {describe(r)!r}, expected the function's own result unchanged"
-                n_expected = 1 if pos == "only" else 2
+                where = pos.partition("-with-")[0]
+                n_expected = 1 if where == "only" else 2
                 if len(calls) != 1 or len(calls[0]) != n_expected:
                     probs["call-count"] = f"the function is called {len(calls)} times / with {[len(c) for c in calls]} arguments"
                     continue
-                got = calls[0][1 if pos == "second" else 0]
+                got = calls[0][1 if where == "second" else 0]
                 NOTHING = nothing(it, model)
                 if decl == "NODES":
                     ok = got is argv
